@@ -239,6 +239,10 @@ def run(tier, seed):
     blobs = [b"", b"f", b"fo", b"foo", bytes(range(256)), b"\xff\xfe\xfd\xfc\xfb\xfa"]
     for _ in range(n // 3):
         blobs.append(bytes(rng.randint(0, 255) for _ in range(rng.randint(0, 80))))
+    # sizes around buffer/block boundaries (the encoding must not depend on how the input is chunked)
+    for size in [255, 256, 257, 511, 512, 513, 767, 768, 1023, 1024, 1025, 1535, 1536, 2047, 2048, 2049, 3000, 4095, 4096, 4097, 5000,
+                 8191, 8192, 8193, 10000, 16385, 65537]:
+        blobs.append(bytes(rng.randint(0, 255) for _ in range(size)))
     for url in (False, True):
         name = "b64urlsafe" if url else "b64"
         bimp = C.harness("import", [{"imp": name, "hex": bb.hex()} for bb in blobs])
